@@ -342,6 +342,7 @@ def _run(mname, selname, seladdrs, L, tier, seed):
                     lp1 = ref.logp(a1)
                     alpha = (-lp0 + kinetic(p0)) - (-lp1 + kinetic(p1))
                     expected.append(dict(z=zz, end=a1, logp=lp1, alpha=alpha))
+                ends = np.stack([np.concatenate([np.ravel(e["end"][a]) for a in moving]) for e in expected])
                 modes = [("jit", jedit)]
                 if tier == "thorough" and si == 0 and eps == b["eps"][0]:
                     modes.append(("eager", edit))
@@ -370,7 +371,8 @@ def _run(mname, selname, seladdrs, L, tier, seed):
                         r = p.result
                         new = {a: np.asarray(r[f"v_{a}"]) for a in addrs}
                         # nearest reference outcome in position space
-                        dist = [max(float(np.max(np.abs(np.asarray(new[a], dtype=np.float64) - e["end"][a]))) for a in moving) for e in expected]
+                        xvec = np.concatenate([np.ravel(np.asarray(new[a], dtype=np.float64)) for a in moving])
+                        dist = np.max(np.abs(ends - xvec), axis=1)
                         j = int(np.argmin(dist))
                         e = expected[j]
                         ctx.ev((mname, selname, L, eps, si, mode, tuple(np.round(np.concatenate([np.ravel(new[a]) for a in moving]), 5).tolist())),
@@ -383,7 +385,7 @@ def _run(mname, selname, seladdrs, L, tier, seed):
                         if not all(close(new[a], e["end"][a]) for a in moving):
                             ctx.fail(comp, op, klass, "trajectory",
                                      dict(**detail, new={a: new[a] for a in moving}, nearest_leapfrog_end={a: e["end"][a] for a in moving},
-                                          momentum_z=e["z"], max_abs_diff=dist[j], alpha=r["w"], leapfrog_alpha=e["alpha"]))
+                                          momentum_z=e["z"], max_abs_diff=float(dist[j]), alpha=r["w"], leapfrog_alpha=e["alpha"]))
                             off_trajectory += 1
                             continue
                         mass[j] = mass.get(j, 0.0) + p.prob
